@@ -614,6 +614,7 @@ JOBS = {
     "conf_set2_default": dict(kind="tlc", module="Conf_Set2", cfg="Conf_Set2.cfg",
                               env={"GRAPH": "art:g_set2_default", "COMP": "set2_default"}),
     "proof_keyboard": dict(kind="tlapm", files=["KeyboardProofs.tla", "Keyboard.tla"]),
+    "proof_scan": dict(kind="tlapm", files=["ScanProofs.tla", "Set1Decoder.tla", "Set2Decoder.tla", "Scancodes.tla", "KeyCodes.tla"]),
     "conf_xlate": dict(kind="tlc", module="Conf_Xlate", cfg="Conf_Xlate.cfg", workers=4,
                        env={"GRAPH1": "art:g_set1", "GRAPH2": "art:g_set2"}),
     # negative controls on the specification side (selftest): a deliberately broken stage must be rejected
@@ -638,8 +639,8 @@ PROPS = {
     "C06": dict(quick=["mc_frame", "mc_link", "mc_link_hazard", "conf_frame", "replay_frame_q", "conf_frame_default"],
                 thorough=["mc_frame_full", "mc_link", "mc_link_hazard", "conf_frame", "replay_frame_t", "conf_frame_default"],
                 graphs=["g_frame"]),
-    "C07": dict(quick=["mc_set1", "mc_set2", "props_scan", "selfreplay_set1_q", "selfreplay_set2_q"],
-                thorough=["mc_set1", "mc_set2", "props_scan", "selfreplay_set1_t", "selfreplay_set2_t"], graphs=["g_set1", "g_set2"]),
+    "C07": dict(quick=["mc_set1", "mc_set2", "proof_scan", "props_scan", "selfreplay_set1_q", "selfreplay_set2_q"],
+                thorough=["mc_set1", "mc_set2", "proof_scan", "props_scan", "selfreplay_set1_t", "selfreplay_set2_t"], graphs=["g_set1", "g_set2"]),
     "C13": dict(quick=["props_scan", "conf_xlate", "mc_world", "world_q"],
                 thorough=["props_scan", "conf_xlate", "mc_world_full", "world_t"],
                 graphs=["g_set1", "g_set2"]),
